@@ -124,7 +124,7 @@ def run_output(repo, proto, json_mode=False, client=False, port=22):
     return results
 
 
-def run_build_struct(repo, proto, client=False, sizes=False):
+def run_build_struct(repo, proto, client=False, sizes=False, key_names=None, host_keys=None):
     """Interpret build_struct for a parsed SSH-2 (or SSH-1) message whose name-lists hold two tokens plus an empty and a blank name.  -> the result dictionary."""
     bs = repo.func('ssh_audit', 'build_struct')
     params = [a.arg for a in bs.args.args]
@@ -140,6 +140,8 @@ def run_build_struct(repo, proto, client=False, sizes=False):
             short = k.split('.', 1)[1]
             lists[k] = ['<%s No.1>' % short, '', '<%s No.2>' % short, '  ']
         lists['kex.server.compression'] = ['none', '<zlib>']
+        if key_names is not None:
+            lists['kex.key_algorithms'] = list(key_names)
         env['kex'] = message('kex', lists)
         env['pkm'] = None
     else:
@@ -161,7 +163,8 @@ def run_build_struct(repo, proto, client=False, sizes=False):
         if t == 'kex.dh_modulus_sizes':
             return (True, {'<kex_algorithms No.1>': 2048} if sizes else {})
         if t == 'kex.host_keys':
-            return (True, {})
+            import copy as _copy
+            return (True, _copy.deepcopy(host_keys) if host_keys is not None else {})
         if t == 'str' and len(call.args) == 1 and unparse(call.args[0]) == 'banner':
             return (True, '<str(banner)>')
         if t in ('get_algorithm_recommendations', 'Fingerprint'):
